@@ -37,7 +37,7 @@ def leaf_class(label):
     if label is None:
         return None
     s = expr_str(label)
-    if label[0] == "agg" and label[1][0] == "adt" and label[1][2] == "Ok":
+    if label[0] == "agg" and label[1][0] == "adt" and label[1][2] in ("Ok", "Some"):
         inner = label[2][0]
         if inner[0] == "agg":
             return inner[1][2]
